@@ -230,12 +230,19 @@ def check_moves(db, rep):
     movers = [('move constructor', db.one('SQuIDS', 'squids::SQuIDS::SQuIDS', 1, lambda f: f.get('moveCtor'))),
               ('move assignment', db.one('SQuIDS', 'squids::SQuIDS::operator=', 1, lambda f: f.get('moveAssign')))]
     cfg = (2, 2, 2, 1)
-    for label, f in movers:
+    suspend = db.find('SQuIDS', 'squids::SQuIDS::Set_AnyNumerics', 1)
+    variants = [(label, f, False) for label, f in movers]
+    if suspend:
+        # numerics suspended by the user while term switches are on: a derived flag must be carried over, not recomputed
+        variants += [(label + ' (numerics suspended)', f, True) for label, f in movers]
+    for label, f, suspended in variants:
         rep.fn(f['name'])
         old, hooks, it = sm.new_solver(db, *cfg)
         # give every scalar field a distinguishable value
         for nm, val in (('Set_CoherentRhoTerms', 1), ('Set_OtherScalarTerms', 1), ('Set_AdaptiveStep', 0), ('Set_NumSteps', 77)):
             it.call(db.one('SQuIDS', 'squids::SQuIDS::' + nm, 1), old, [val])
+        if suspended:
+            it.call(suspend[0], old, [0])
         for nm in ('h', 'h_min', 'h_max', 'abs_error', 'rel_error'):
             old.value.fields[nm].value = Poly.var('V_' + nm)
         old.value.fields['t'].value = Poly.var('T_now')
@@ -247,7 +254,7 @@ def check_moves(db, rep):
         for k in range(xv.fields['n'].value):
             xv.fields['data'].value.cell(k).value = Poly.var('X%d' % k)
         pre = field_snapshot(old.value)
-        if label == 'move constructor':
+        if label.startswith('move constructor'):
             new = Cell(Obj(sm.SQ, None, 'moved'), None, 0, 'moved')
             it.call(f, new, [old])
         else:
@@ -305,3 +312,7 @@ def run(db, rep, tier):
     check_setters(db, rep)
     check_ini(db, rep)
     check_moves(db, rep)
+    # switching numerical terms on and off between segments: a segment integrates exactly the terms enabled for it,
+    # whatever the stepper's buffers hold from the segment before (C04's rule D.rhs, repeated on one configuration)
+    import c04
+    c04.check_config(db, rep, (2, 2, 2, 2), tier)
